@@ -329,6 +329,13 @@ func (d *Datastore) Subscribe(req *sdcpb.SubscribeRequest, stream sdcpb.DataServ
 	if err != nil {
 		return err
 	}
+	// a sample interval that is not a positive time.Duration (0, or 2^63 and above)
+	// would make time.NewTicker panic in the sampler goroutine
+	for _, subsc := range req.GetSubscription() {
+		if time.Duration(subsc.GetSampleInterval()) <= 0 {
+			return fmt.Errorf("invalid sample interval %d", subsc.GetSampleInterval())
+		}
+	}
 	// start periodic gets, TODO: optimize using cache RPC
 	wg := new(sync.WaitGroup)
 	wg.Add(len(req.GetSubscription()))
